@@ -176,6 +176,31 @@ def estimate_entirely_outside_reference_span(inp, what=""):
     return all(F(b) <= tmin for _, b in ei) or all(F(a) >= tmax for a, _ in ei)
 
 
+@region("melody_empty_series")
+def melody_empty_series(inp, what=""):
+    """melody.evaluate / to_cent_voicing index time[0] of an empty reference or estimate series (IndexError), although
+    the frame measures themselves define a score (0, with a warning) for empty arrays"""
+    if inp.get("fault") or inp["task"] != "melody" or "IndexError" not in what:
+        return False
+    return len(inp["base"]["ref"][0]) == 0 or len(inp["base"]["est"][0]) == 0
+
+
+@region("segment_ends_allclose_but_other_frame_count")
+def segment_ends_allclose_but_other_frame_count(inp, what=""):
+    """validate_structure accepts end times that agree up to np.allclose, but the frame-based metrics then sample a
+    different number of frames on the two sides and fail with ValueError (shape mismatch)"""
+    if inp.get("fault") or inp["task"] != "segment" or inp["entry"] in ("evaluate", "detection", "deviation"):
+        return False
+    if "ValueError" not in what:
+        return False
+    ri, ei = inp["base"]["ref"][0], inp["base"]["est"][0]
+    if not ri or not ei:
+        return False
+    a, b = F(ri[-1][1]), F(ei[-1][1])
+    fs = Fr(str((inp.get("kw") or {}).get("frame_size", 0.1)))
+    return a != b and abs(a - b) <= Fr(1, 10 ** 8) + Fr(1, 10 ** 5) * abs(b) and int(a / fs) != int(b / fs)
+
+
 @region("chord_reference_zero_span")
 def chord_reference_zero_span(inp, what=""):
     """a reference consisting of one interval of zero duration: chord.evaluate fails with TypeError"""
